@@ -346,6 +346,10 @@ def ownerFast (ds : List BDraw) (p : IPt) : Nat := ownerFastAux p ds 1 0
 def farAll (ds : List BDraw) (p : IPt) (d : Int) : Bool :=
   ds.all (fun dr => dr.polys.all (·.far p d))
 
+/-- every draw with its own band width (same scale as the coordinates) -/
+def farAllB (ds : List (BDraw × Int)) (p : IPt) : Bool :=
+  ds.all (fun x => x.1.polys.all (·.far p x.2))
+
 def charOwner (c : Char) : Option Nat :=
   if '0' ≤ c ∧ c ≤ '9' then some (c.toNat - '0'.toNat) else none
 
@@ -357,17 +361,21 @@ structure Verdict where
 
 /-- judge all pixels: rows of characters ('0' untouched, 'k' exactly the paint of draw k, other =
 some other colour). Scale: all coordinates are integers at exponent e0, one pixel = 2^(-e0). -/
-def judge (ids : List IDraw) (e0 : Int) (rows : List String) : Verdict := Id.run do
+def judge (ids : List IDraw) (bands4 : List Nat) (e0 : Int) (rows : List String) : Verdict := Id.run do
   let ds := ids.map mkBDraw
   let one : Int := (2 : Int) ^ (-e0).toNat
   let half : Int := one / 2
+  -- band of each draw in quarter pixels (e0 ≤ −2, so one is divisible by 4): 4 = 1 px for flat
+  -- polygons, 5 = 1.25 px for curved fills (pixel half diagonal 0.71 + the library's flattening bound
+  -- 4·PixelTolerance = 0.4 px + 26.6 rounding and sampling < 0.03 px)
+  let dsb := ds.zip (bands4.map fun (b : Nat) => one / 4 * Int.ofNat b)
   let mut v : Verdict := {}
   let mut j : Nat := 0
   for row in rows do
     let mut i : Nat := 0
     for ch in row.toList do
       let p : IPt := ⟨(i : Int) * one + half, (j : Int) * one + half⟩
-      if farAll ds p one then
+      if farAllB dsb p then
         let ex := ownerFast ds p
         if charOwner ch == some ex then
           v := { v with checked := v.checked + 1 }
@@ -382,13 +390,15 @@ def judge (ids : List IDraw) (e0 : Int) (rows : List String) : Verdict := Id.run
     j := j + 1
   return v
 
-def parseDraws : Nat → List String → Option (List (Rule × List (List RawPt)) × List String)
+/-- a draw: `<rule>` (flat polygon, band 1 px) or `c<rule>` (sampled curve, band 1.25 px), then the poly block -/
+def parseDraws : Nat → List String → Option (List (Rule × Nat × List (List RawPt)) × List String)
   | 0, ts => some ([], ts)
   | n + 1, r :: ts => do
-    let rule ← (r.toNat?).bind Rule.ofNat?
+    let (rs, band4) := if r.startsWith "c" then (r.drop 1, 5) else (r, 4)
+    let rule ← (rs.toNat?).bind Rule.ofNat?
     let (p, ts) ← parsePoly ts
     let (rest, ts) ← parseDraws n ts
-    pure ((rule, p) :: rest, ts)
+    pure ((rule, band4, p) :: rest, ts)
   | _, _ => none
 
 def classOf (ex : Nat) (got : Char) : String :=
@@ -407,13 +417,14 @@ def handlePix : List String → Option String
     let n ← n.toNat?
     let (draws, ts) ← parseDraws n ts
     let rows ← (match ts with | "ROWS" :: r => some r | _ => none)
-    let pdraws : List PDraw := draws.map fun (r, ps) => { rule := r, polys := ps.map (·.map (toPixel dpmm hpx)) }
-    let exps : List (Int × Int) := pdraws.foldr (fun d acc => d.polys.foldr (fun c acc => c.foldr (fun p acc => p.1 :: p.2 :: acc) acc) acc) [(1, -1)]
+    let pdraws : List PDraw := draws.map fun (r, _, ps) => { rule := r, polys := ps.map (·.map (toPixel dpmm hpx)) }
+    let bands4 : List Nat := draws.map fun (_, b, _) => b
+    let exps : List (Int × Int) := pdraws.foldr (fun d acc => d.polys.foldr (fun c acc => c.foldr (fun p acc => p.1 :: p.2 :: acc) acc) acc) [(1, -2)]
     let e0 := minExp exps
     let conv (d : PDraw) (rule : Rule → Rule) : IDraw :=
       { rule := rule d.rule, polys := d.polys.map (·.map fun p => ⟨scaleTo e0 p.1, scaleTo e0 p.2⟩) }
     let ids := pdraws.map (conv · id)
-    let v := judge ids e0 rows
+    let v := judge ids bands4 e0 rows
     let show4 (b : Nat × Nat × Nat × Char) : String := s!"px={b.1},{b.2.1} expected={b.2.2.1} got={b.2.2.2}"
     let border (w : Verdict) : String := match w.bad0 with
       | some b => s!" (also top/left border: {show4 b})"
@@ -425,7 +436,7 @@ def handlePix : List String → Option String
       pure s!"FAIL top-left-border:{classOf b.2.2.1 b.2.2.2} {show4 b}"
     | some b, _ =>
       let anyEO := pdraws.any (·.rule == Rule.evenOdd)
-      let v2 := if anyEO then judge (pdraws.map (conv · fun _ => Rule.nonZero)) e0 rows else v
+      let v2 := if anyEO then judge (pdraws.map (conv · fun _ => Rule.nonZero)) bands4 e0 rows else v
       -- regression class (the rasterizer honours EvenOdd since 5293026): the image agrees with the all-NonZero reading
       if anyEO && v2.bad.isNone then
         pure s!"FAIL fillrule-ignored:EvenOdd {show4 b} (all pixels off the top row and left column agree with NonZero){border v2}"
